@@ -114,6 +114,14 @@ def sartRun (expm1 : α) (n : Nat) (W : List (List α)) (lap : Option (List (Lis
   let len := rowSums W
   sartLoop n W b (colSums W n) len (len.map (fun l => 1 / l)) ω lap tol (dot b b) maxIt x0 (matVec W x0) []
 
+/-- what the caller's `initial_guess` object holds after the call: sart.pyx:86 binds `solution` to the caller's array and
+line 150 copies every new iterate into it, so an array guess ends up holding the returned solution (untouched when the call
+raises before the first copy); scalars and `None` are immutable; the matrix, the measurement and the Laplacian are only read -/
+def guessAfter (g : Guess α) (r : Except Err (List α × List α)) : Guess α :=
+  match g, r with
+  | .array _, .ok (xs, _) => .array xs
+  | g, _ => g
+
 /-! ## Regularised least squares wrappers -/
 
 /-- `alpha * tikhonov_matrix` -/
